@@ -464,7 +464,14 @@ class LocalEngine(BaseEngine):
         samples, samples_dict = self._combine_and_sort_samples(samples_dict)
 
         if isinstance(prog, TDMProgram) and samples_dict:
-            samples_dict = reshape_samples(samples_dict, prog.measured_modes, prog.N, prog.timebins)
+            if prog.space_unrolled_circuit is not None:
+                # in a space-unrolled circuit every pulse has its own mode, in time-bin order
+                values = [samples_dict[m][-1] for m in sorted(samples_dict)]
+                samples_dict = {prog.measured_modes[0]: np.array(values).T}
+            else:
+                samples_dict = reshape_samples(
+                    samples_dict, prog.measured_modes, prog.N, prog.timebins
+                )
             # crop vacuum modes arriving at the detector before the first computational mode
             if kwargs.get("crop", False):
                 samples_dict[0] = samples_dict[0][:, prog.get_crop_value() :]
